@@ -102,11 +102,12 @@ Lemma via_consume_reserved {B} ne (C : list token -> Prop) pk1 pk2 (K : nat -> t
                  (fun nm r1 => if is_reserved (tlex nm) then PErr [diag_tok nm pk2] else K g nm r1)) f ts.
 Proof.
   intros VK FK O. destruct ts as [|t r].
-  { eapply Via_fail_now; [reflexivity|reflexivity]. }
+  { apply (Via_fail_now eofl true _ _ _ _ _ pk1). intros g y S. same_head S. reflexivity. }
   destruct (tkind_eqb (tk t) TIDENTIFIER) eqn:E.
-  2:{ eapply Via_fail_now; [cbv beta; unfold Parser.consume; rewrite E; reflexivity|reflexivity]. }
+  2:{ apply (Via_fail_now eofl true _ _ _ _ _ pk1). intros g y S. same_head S. unfold Parser.consume. rewrite E. reflexivity. }
   destruct (is_reserved (tlex t)) eqn:R.
-  - eapply Via_fail_now; [cbv beta; unfold Parser.consume; rewrite E, pb_ret, R; reflexivity|reflexivity].
+  - apply (Via_fail_now eofl true _ _ _ _ _ pk2). intros g y S. same_head S.
+    unfold Parser.consume. rewrite E, pb_ret, R. reflexivity.
   - eapply (Via_cons eofl true ne C _ (fun g => K g t) f t r w0).
     + intros g x. unfold Parser.consume. rewrite E, pb_ret, R. reflexivity.
     + apply FK.
@@ -294,7 +295,7 @@ Lemma via_pparams : forall f n ts, Via true C_pp (fun g => pparams g n) f ts.
 Proof.
   induction f as [|f IH]; intros n ts; [apply Via_fuel; reflexivity|].
   apply Via_shift. destruct (Nat.leb max_params n) eqn:L.
-  { eapply Via_fail_now; [cbv beta; rewrite pparams_S', L; reflexivity|]. rewrite pd_kind_diag_at. reflexivity. }
+  { apply (Via_fail_now eofl true _ _ _ _ _ PTooManyParams). intros g y _. rewrite pparams_S', L. reflexivity. }
   eapply Via_ext_all; [intros g y; rewrite pparams_S', L; reflexivity|]. cbv beta.
   apply (Via_bind eofl true true false C_any C_pp (fun _ x => consume TIDENTIFIER PExpectParam x)
            (fun g p r1 => paramK g n p r1) f ts []).
@@ -306,10 +307,9 @@ Proof.
       destruct (Nat.leb max_params (S n)) eqn:L2.
       * (* the 256th parameter: diagnosed at the parameter, after the comma *)
         destruct f as [|f']; [apply Via_fuel; rewrite E; reflexivity|].
-        eapply (Via_cons_late eofl true C_pp _ _ (S f') tc r' (diag_at r' PTooManyParams) [] eq_refl E).
-        -- rewrite pparams_S', L2. reflexivity.
-        -- rewrite pd_kind_diag_at. reflexivity.
-        -- apply pd_kind_diag_at.
+        apply (Via_late_now eofl true true C_pp _ (S f') tc r' eq_refl).
+        -- destruct r' as [|t' r'']; simpl in Cm; apply tkind_eqb_eq in Cm; exact Cm.
+        -- intros g y Hg. destruct g as [|g']; [lia|]. rewrite E, pparams_S', L2. reflexivity.
       * eapply (Via_cons eofl true true C_pp _ _ f tc r' [idtok] E).
         -- apply (FN_map eofl C_pp (fun g => pparams g (S n)) (fun more => tlex p :: more)), FN_pparams, L2.
         -- apply (Via_map eofl true true C_pp (fun g => pparams g (S n)) (fun more => tlex p :: more)), IH.
@@ -340,4 +340,704 @@ Proof.
     rewrite (C_head_check _ _ Cu). reflexivity.
 Qed.
 
+(** * Pairs: the [ViaL] statement for every (one-line) input and a completion from nothing *)
+
+Definition VF {A} (ne : bool) (C : list token -> Prop) (run : nat -> list token -> pres A) (f : nat) (w : list token) : Prop :=
+  (forall ts, ViaL ne C run f ts) /\ FN C run w.
+
+Lemma VF_tok {B} ne (C : list token -> Prop) k pk (Z : nat -> token -> list token -> pres B) f wZ :
+  (forall t, VF ne C (fun g => Z g t) f wZ) ->
+  VF true C (fun g x => pbind (consume k pk x) (Z g)) f (mk k :: wZ).
+Proof.
+  intros H. assert (O : online wZ) by (destruct (H (mk k)) as (_ & O & _); exact O).
+  split.
+  - intros ts. apply (ViaL_tok eofl true ne C k pk Z f ts wZ); [intros t r1; apply (H t)|exact O|intros t; apply (H t)].
+  - apply FN_tok; [reflexivity|reflexivity|exact O|intros t; apply (H t)].
+Qed.
+
+Lemma VF_bind {A B} neX neY (C' C : list token -> Prop) (X : nat -> list token -> pres A)
+    (Y : nat -> A -> list token -> pres B) f wX wY :
+  VF neX C' X f wX -> online wY -> (forall a, VF neY C (fun g => Y g a) f wY) ->
+  (neY = true \/ forall u, C u -> C' u) -> (forall u, C u -> C' (wY ++ u)) ->
+  VF (neX || neY) C (fun g x => pbind (X g x) (Y g)) f (wX ++ wY).
+Proof.
+  intros (VX & FX) O HY Sub HC.
+  assert (FY : FNw C' C Y wY) by (apply FNw_of_FN; [exact O|intros a; apply (HY a)|exact HC]).
+  split.
+  - intros ts. apply (ViaL_bind eofl true neX neY C' C X Y f ts wY); [apply VX|intros a r1; apply (HY a)|exact Sub|exact FY].
+  - apply (FN_bind eofl C' C X Y wX wY FX FY).
+Qed.
+
+Lemma VF_map {A B} ne (C : list token -> Prop) (X : nat -> list token -> pres A) (k : A -> B) f w :
+  VF ne C X f w -> VF ne C (fun g x => pbind (X g x) (fun a r => POk (k a) r [])) f w.
+Proof. intros (V & F). split; [intros ts; apply ViaL_map, V|apply FN_map, F]. Qed.
+
+Lemma VF_ret {A} (C : list token -> Prop) (a : A) f : VF false C (fun _ x => POk a x []) f [].
+Proof. split; [intros ts; apply ViaL_of, Via_ret; reflexivity|apply FN_ret]. Qed.
+
+Lemma VF_weaken {A} ne (C : list token -> Prop) (run : nat -> list token -> pres A) f w :
+  VF true C run f w -> VF ne C run f w.
+Proof. intros (V & F). split; [intros ts; apply ViaL_weaken, V|exact F]. Qed.
+
+Lemma VF_sub {A} ne (C C2 : list token -> Prop) (run : nat -> list token -> pres A) f w :
+  (forall u, C2 u -> C u) -> VF ne C run f w -> VF ne C2 run f w.
+Proof. intros S (V & F). split; [intros ts; eapply ViaL_sub; [exact S|apply V]|eapply FN_sub; [exact S|exact F]]. Qed.
+
+Lemma VF_reserved {B} ne (C : list token -> Prop) pk1 pk2 (K : nat -> token -> list token -> pres B) f w0 :
+  (forall nm, VF ne C (fun g => K g nm) f w0) ->
+  VF true C (fun g x => pbind (consume TIDENTIFIER pk1 x)
+                 (fun nm r1 => if is_reserved (tlex nm) then PErr [diag_tok nm pk2] else K g nm r1)) f (idtok :: w0).
+Proof.
+  intros H. assert (O : online w0) by (destruct (H idtok) as (_ & O & _); exact O).
+  split.
+  - intros ts. apply (via_consume_reserved ne C pk1 pk2 K f ts w0); [intros nm r1; apply (H nm)|intros nm; apply (H nm)].
+  - apply (FN_consume_reserved C pk1 pk2 K w0); [exact O|intros nm; apply (H nm)].
+Qed.
+
+(** the leaves *)
+Lemma VF_pexpr f : VF true C_e (fun g => pexpr g) f [idtok].
+Proof. split; [intros ts; apply ViaL_of, Ie|apply FN_pexpr]. Qed.
+
+Lemma VF_optexpr stop f : e_stop stop = true -> VF false (C_head stop) (optexpr stop) f [].
+Proof. intros H. split; [intros ts; apply ViaL_of, (via_optexpr f stop ts H)|apply (via_optexpr f stop [] H)]. Qed.
+
+Lemma VF_optparams f : VF false (C_head TRIGHT_PAREN) optparams f [].
+Proof. split; [intros ts; apply ViaL_of, (via_optparams f ts)|apply (via_optparams f [])]. Qed.
+
+Lemma VF_pvar f : VF true C_any (fun g => pvar g) f [idtok; mk TSEMICOLON].
+Proof. split; [intros ts; apply via_pvar|apply FN_pvar]. Qed.
+
+(** an expression and its (lenient) semicolon *)
+Definition exprlen (k : expr -> stmt) (g : nat) (x : list token) : pres stmt :=
+  pbind (pexpr g x) (fun e r1 => let '(r2, ds) := consume_lenient TSEMICOLON PSemiAfterValue r1 in POk (k e) r2 ds).
+
+Lemma VF_exprlen k f : VF true C_any (exprlen k) f [idtok; mk TSEMICOLON].
+Proof.
+  split.
+  - intros ts. apply ViaL_of. unfold exprlen.
+    apply (Via_bind eofl true true true C_e C_any (fun g => pexpr g)
+             (fun _ e r1 => let '(r2, ds) := consume_lenient TSEMICOLON PSemiAfterValue r1 in POk (k e) r2 ds)
+             f ts [mk TSEMICOLON]).
+    + apply Ie.
+    + intros e r1 _ _. apply Via_lenient.
+    + left. reflexivity.
+    + split; [apply online1; reflexivity|]. intros u _. split; [reflexivity|].
+      intros e. exists 0. eexists. intros g _. reflexivity.
+  - split; [constructor; [reflexivity|apply online1; reflexivity]|]. intros u _.
+    exists 15. eexists. intros g Hg. unfold exprlen. cbn [app].
+    rewrite id_pexpr; [|reflexivity|exact Hg]. rewrite pb_ret. reflexivity.
+Qed.
+
+(** * The statement forms, after their keyword *)
+
+Definition semiK (pk : pkind) (k : token -> stmt) (g : nat) (r : list token) : pres stmt :=
+  pbind (consume TSEMICOLON pk r) (fun s r1 => POk (k s) r1 []).
+
+Definition returnK (t : token) (g : nat) (r : list token) : pres stmt :=
+  pbind (optexpr TSEMICOLON g r) (fun v r1 =>
+  pbind (consume TSEMICOLON PSemiAfterReturn r1) (fun _s r2 => POk (SReturn (tline t) v) r2 [])).
+
+Definition blockK (g : nat) (r : list token) : pres stmt :=
+  pbind (pblock g r) (fun ss r1 => POk (SBlock ss) r1 []).
+
+Definition whileK (g : nat) (r : list token) : pres stmt :=
+  pbind (consume TLEFT_PAREN PLParenAfterWhile r) (fun _lp r1 =>
+  pbind (pexpr g r1) (fun c r2 =>
+  pbind (consume TRIGHT_PAREN PRParenAfterCond r2) (fun _rp r3 =>
+  pbind (pstmt g r3) (fun b r4 => POk (SWhile c b) r4 [])))).
+
+Definition elseK (g : nat) (c : expr) (th : stmt) (r4 : list token) : pres stmt :=
+  if check TELSE r4 then pbind (pstmt g (tl r4)) (fun el r5 => POk (SIf c th (Some el)) r5 [])
+  else POk (SIf c th None) r4 [].
+
+Definition ifK (g : nat) (r : list token) : pres stmt :=
+  pbind (consume TLEFT_PAREN PLParenAfterIf r) (fun _lp r1 =>
+  pbind (pexpr g r1) (fun c r2 =>
+  pbind (consume TRIGHT_PAREN PRParenAfterIfCond r2) (fun _rp r3 =>
+  pbind (pstmt g r3) (fun th r4 => elseK g c th r4)))).
+
+Definition forinit (g : nat) (r1 : list token) : pres (option stmt) :=
+  if check TSEMICOLON r1 then POk None (tl r1) []
+  else if check TVAR r1 then pbind (pvar g (tl r1)) (fun s r' => POk (Some s) r' [])
+  else pbind (pexprstmt g r1) (fun s r' => POk (Some s) r' []).
+
+Definition forK (g : nat) (r : list token) : pres stmt :=
+  pbind (consume TLEFT_PAREN PLParenAfterFor r) (fun _lp r1 =>
+  pbind (forinit g r1) (fun init r2 =>
+  pbind (optexpr TSEMICOLON g r2) (fun c r3 =>
+  pbind (consume TSEMICOLON PSemiAfterLoopCond r3) (fun _s r4 =>
+  pbind (optexpr TRIGHT_PAREN g r4) (fun inc r5 =>
+  pbind (consume TRIGHT_PAREN PRParenAfterFor r5) (fun _rp r6 =>
+  pbind (pstmt g r6) (fun b r7 =>
+    POk (SFor init (match c with Some c => c | None => ELit (LitBool true) 0%N end) inc b) r7 []))))))).
+
+Definition funK (g : nat) (nm : token) (r1 : list token) : pres stmt :=
+  pbind (consume TLEFT_PAREN PLParenAfterFunName r1) (fun _lp r2 =>
+  pbind (optparams g r2) (fun ps r3 =>
+  pbind (consume TRIGHT_PAREN PRParenAfterParams r3) (fun _rp r4 =>
+  pbind (consume TLEFT_BRACE PLBraceBeforeBody r4) (fun _lb r5 =>
+  pbind (pblock g r5) (fun body r6 => POk (SFun (tlex nm) ps body) r6 []))))).
+
+Definition fundeclK (g : nat) (r : list token) : pres stmt :=
+  pbind (consume TIDENTIFIER PExpectFunName r)
+    (fun nm r1 => if is_reserved (tlex nm) then PErr [diag_tok nm PReservedFun] else funK g nm r1).
+
+Lemma pstmt_kw g t r :
+  pstmt (S g) (t :: r) =
+  match tk t with
+  | TIF => ifK g r
+  | TWHILE => whileK g r
+  | TFOR => forK g r
+  | TPRINT => exprlen SPrint g r
+  | TRETURN => returnK t g r
+  | TBREAK => semiK PSemiAfterBreak (fun s => SBreak (tline s)) g r
+  | TCONTINUE => semiK PSemiAfterContinue (fun s => SContinue (tline s)) g r
+  | TLEFT_BRACE => blockK g r
+  | _ => pexprstmt g (t :: r)
+  end.
+Proof. rewrite pstmt_S. destruct (tk t); reflexivity. Qed.
+
+Lemma pdecl_kw g t r :
+  pdecl (S g) (t :: r) =
+  match tk t with
+  | TFUN => fundeclK g r
+  | TVAR => pvar g r
+  | _ => pstmt g (t :: r)
+  end.
+Proof. rewrite pdecl_S. destruct (tk t); reflexivity. Qed.
+
+(** * Completions of a statement and of a block: [{ }] and [}] *)
+
+Definition wS : list token := [mk TLEFT_BRACE; mk TRIGHT_BRACE].
+Definition wB : list token := [mk TRIGHT_BRACE].
+
+Lemma FN_pblock : FN C_any (fun g => pblock g) wB.
+Proof.
+  split; [apply online1; reflexivity|]. intros u _. exists 1, []. intros g Hg.
+  destruct g as [|g]; [lia|]. reflexivity.
+Qed.
+Lemma FN_pstmt : FN C_ne (fun g => pstmt g) wS.
+Proof.
+  split; [constructor; [reflexivity|apply online1; reflexivity]|]. intros u _. exists 2, (SBlock []). intros g Hg.
+  destruct g as [|[|g]]; try lia. reflexivity.
+Qed.
+Lemma FN_pdecl : FN C_ne (fun g => pdecl g) wS.
+Proof.
+  split; [constructor; [reflexivity|apply online1; reflexivity]|]. intros u _. exists 3, (SBlock []). intros g Hg.
+  destruct g as [|[|[|g]]]; try lia. reflexivity.
+Qed.
+
+Section Step.
+Variable f : nat.
+Hypothesis HS : VF true C_ne (fun g => pstmt g) f wS.
+Hypothesis HB : VF true C_any (fun g => pblock g) f wB.
+
+Lemma C_ne_any : forall u, C_ne u -> C_any u.
+Proof. intros; exact I. Qed.
+
+Lemma VF_semiK pk k : VF true C_ne (semiK pk k) f [mk TSEMICOLON].
+Proof.
+  unfold semiK. apply (VF_tok false C_ne TSEMICOLON pk (fun _ s r1 => POk (k s) r1 []) f []).
+  intros t. apply VF_ret.
+Qed.
+
+Lemma VF_returnK t : VF true C_ne (returnK t) f [mk TSEMICOLON].
+Proof.
+  unfold returnK.
+  apply (VF_bind false true (C_head TSEMICOLON) C_ne (optexpr TSEMICOLON)
+           (fun g v r1 => pbind (consume TSEMICOLON PSemiAfterReturn r1) (fun _s r2 => POk (SReturn (tline t) v) r2 []))
+           f [] [mk TSEMICOLON]).
+  - apply VF_optexpr. reflexivity.
+  - apply online1. reflexivity.
+  - intros v. apply (VF_tok false C_ne TSEMICOLON PSemiAfterReturn (fun _ _s r2 => POk (SReturn (tline t) v) r2 []) f []).
+    intros s. apply VF_ret.
+  - left. reflexivity.
+  - intros u _. reflexivity.
+Qed.
+
+Lemma VF_blockK : VF true C_ne blockK f wB.
+Proof.
+  unfold blockK. apply (VF_map true C_ne (fun g => pblock g) SBlock f wB).
+  eapply VF_sub; [apply C_ne_any|exact HB].
+Qed.
+
+Lemma VF_whileK : VF true C_ne whileK f (mk TLEFT_PAREN :: idtok :: mk TRIGHT_PAREN :: wS).
+Proof.
+  unfold whileK.
+  apply (VF_tok true C_ne TLEFT_PAREN PLParenAfterWhile
+           (fun g _lp r1 => pbind (pexpr g r1) (fun c r2 =>
+              pbind (consume TRIGHT_PAREN PRParenAfterCond r2) (fun _rp r3 =>
+              pbind (pstmt g r3) (fun b r4 => POk (SWhile c b) r4 [])))) f (idtok :: mk TRIGHT_PAREN :: wS)).
+  intros _lp.
+  apply (VF_bind true true C_e C_ne (fun g => pexpr g)
+           (fun g c r2 => pbind (consume TRIGHT_PAREN PRParenAfterCond r2) (fun _rp r3 =>
+              pbind (pstmt g r3) (fun b r4 => POk (SWhile c b) r4 [])))
+           f [idtok] (mk TRIGHT_PAREN :: wS)).
+  - apply VF_pexpr.
+  - constructor; [reflexivity|apply FN_pstmt].
+  - intros c.
+    apply (VF_tok true C_ne TRIGHT_PAREN PRParenAfterCond
+             (fun g _rp r3 => pbind (pstmt g r3) (fun b r4 => POk (SWhile c b) r4 [])) f wS).
+    intros _rp. apply (VF_map true C_ne (fun g => pstmt g) (fun b => SWhile c b) f wS), HS.
+  - left. reflexivity.
+  - intros u _. reflexivity.
+Qed.
+
+Lemma VF_elseK c th : VF false C_ne (fun g => elseK g c th) f [].
+Proof.
+  destruct HS as (VS & FS). split.
+  - intros ts O. destruct (check TELSE ts) eqn:Ce.
+    + destruct ts as [|te r']; [discriminate Ce|]. apply Via_weaken.
+      eapply (Via_cons eofl true true C_ne _ (fun g x => pbind (pstmt g x) (fun el r5 => POk (SIf c th (Some el)) r5 [])) f te r' wS).
+      * intros g x. unfold elseK. change (check TELSE (te :: x)) with (check TELSE (te :: r')). rewrite Ce. reflexivity.
+      * apply (FN_map eofl C_ne (fun g => pstmt g) (fun el => SIf c th (Some el))), FS.
+      * apply (Via_map eofl true true C_ne (fun g => pstmt g) (fun el => SIf c th (Some el))). apply VS. inversion O; assumption.
+    + apply (Via_stop_ok eofl true _ _ (SIf c th None)). intros g y [S|Cy]; unfold elseK.
+      * rewrite (check_samehead TELSE _ _ S), Ce. reflexivity.
+      * unfold C_ne in Cy. rewrite Cy. reflexivity.
+  - split; [constructor|]. intros u Cu. exists 0. eexists. intros g _. unfold elseK. cbn [app].
+    unfold C_ne in Cu. rewrite Cu. reflexivity.
+Qed.
+
+Lemma VF_ifK : VF true C_ne ifK f (mk TLEFT_PAREN :: idtok :: mk TRIGHT_PAREN :: wS).
+Proof.
+  unfold ifK.
+  apply (VF_tok true C_ne TLEFT_PAREN PLParenAfterIf
+           (fun g _lp r1 => pbind (pexpr g r1) (fun c r2 =>
+              pbind (consume TRIGHT_PAREN PRParenAfterIfCond r2) (fun _rp r3 =>
+              pbind (pstmt g r3) (fun th r4 => elseK g c th r4)))) f (idtok :: mk TRIGHT_PAREN :: wS)).
+  intros _lp.
+  apply (VF_bind true true C_e C_ne (fun g => pexpr g)
+           (fun g c r2 => pbind (consume TRIGHT_PAREN PRParenAfterIfCond r2) (fun _rp r3 =>
+              pbind (pstmt g r3) (fun th r4 => elseK g c th r4)))
+           f [idtok] (mk TRIGHT_PAREN :: wS)).
+  - apply VF_pexpr.
+  - constructor; [reflexivity|apply FN_pstmt].
+  - intros c.
+    apply (VF_tok true C_ne TRIGHT_PAREN PRParenAfterIfCond
+             (fun g _rp r3 => pbind (pstmt g r3) (fun th r4 => elseK g c th r4)) f wS).
+    intros _rp.
+    apply (VF_bind true false C_ne C_ne (fun g => pstmt g) (fun g th r4 => elseK g c th r4) f wS []).
+    + exact HS.
+    + constructor.
+    + intros th. apply VF_elseK.
+    + right. auto.
+    + intros u Cu. exact Cu.
+  - left. reflexivity.
+  - intros u _. reflexivity.
+Qed.
+
+Lemma VF_forinit : VF true C_any forinit f [mk TSEMICOLON].
+Proof.
+  split.
+  - intros ts O. destruct (check TSEMICOLON ts) eqn:C1.
+    + destruct ts as [|t1 r']; [discriminate C1|].
+      eapply (Via_cons eofl true false C_any _ (fun _ x => POk None x []) f t1 r' []).
+      * intros g x. unfold forinit. change (check TSEMICOLON (t1 :: x)) with (check TSEMICOLON (t1 :: r')). rewrite C1. reflexivity.
+      * apply FN_ret.
+      * apply Via_ret. reflexivity.
+    + destruct (check TVAR ts) eqn:C2.
+      * destruct ts as [|t1 r']; [discriminate C2|].
+        eapply (Via_cons eofl true true C_any _ (fun g x => pbind (pvar g x) (fun s r0 => POk (Some s) r0 [])) f t1 r' [idtok; mk TSEMICOLON]).
+        -- intros g x. unfold forinit. change (check TSEMICOLON (t1 :: x)) with (check TSEMICOLON (t1 :: r')).
+           change (check TVAR (t1 :: x)) with (check TVAR (t1 :: r')). rewrite C1, C2. reflexivity.
+        -- apply (FN_map eofl C_any (fun g => pvar g) (@Some stmt)), FN_pvar.
+        -- apply (Via_map eofl true true C_any (fun g => pvar g) (@Some stmt)). apply via_pvar. inversion O; assumption.
+      * apply (Via_ext_head eofl true _ _ (fun g x => pbind (pexprstmt g x) (fun s r0 => POk (Some s) r0 []))).
+        -- intros g y _ S. unfold forinit. rewrite (check_samehead TSEMICOLON _ _ S), (check_samehead TVAR _ _ S), C1, C2. reflexivity.
+        -- apply (Via_map eofl true true C_any (fun g => pexprstmt g) (@Some stmt)), via_pexprstmt.
+  - split; [apply online1; reflexivity|]. intros u _. exists 0, None. intros g _. reflexivity.
+Qed.
+
+Lemma VF_forK : VF true C_ne forK f (mk TLEFT_PAREN :: mk TSEMICOLON :: mk TSEMICOLON :: mk TRIGHT_PAREN :: wS).
+Proof.
+  unfold forK.
+  apply (VF_tok true C_ne TLEFT_PAREN PLParenAfterFor
+           (fun g _lp r1 =>
+              pbind (forinit g r1) (fun init r2 =>
+              pbind (optexpr TSEMICOLON g r2) (fun c r3 =>
+              pbind (consume TSEMICOLON PSemiAfterLoopCond r3) (fun _s r4 =>
+              pbind (optexpr TRIGHT_PAREN g r4) (fun inc r5 =>
+              pbind (consume TRIGHT_PAREN PRParenAfterFor r5) (fun _rp r6 =>
+              pbind (pstmt g r6) (fun b r7 =>
+                POk (SFor init (match c with Some c => c | None => ELit (LitBool true) 0%N end) inc b) r7 [])))))))
+           f (mk TSEMICOLON :: mk TSEMICOLON :: mk TRIGHT_PAREN :: wS)).
+  intros _lp.
+  apply (VF_bind true true C_any C_ne forinit
+           (fun g init r2 =>
+              pbind (optexpr TSEMICOLON g r2) (fun c r3 =>
+              pbind (consume TSEMICOLON PSemiAfterLoopCond r3) (fun _s r4 =>
+              pbind (optexpr TRIGHT_PAREN g r4) (fun inc r5 =>
+              pbind (consume TRIGHT_PAREN PRParenAfterFor r5) (fun _rp r6 =>
+              pbind (pstmt g r6) (fun b r7 =>
+                POk (SFor init (match c with Some c => c | None => ELit (LitBool true) 0%N end) inc b) r7 []))))))
+           f [mk TSEMICOLON] (mk TSEMICOLON :: mk TRIGHT_PAREN :: wS)).
+  - apply VF_forinit.
+  - constructor; [reflexivity|]. constructor; [reflexivity|apply FN_pstmt].
+  - intros init.
+    apply (VF_bind false true (C_head TSEMICOLON) C_ne (optexpr TSEMICOLON)
+             (fun g c r3 =>
+                pbind (consume TSEMICOLON PSemiAfterLoopCond r3) (fun _s r4 =>
+                pbind (optexpr TRIGHT_PAREN g r4) (fun inc r5 =>
+                pbind (consume TRIGHT_PAREN PRParenAfterFor r5) (fun _rp r6 =>
+                pbind (pstmt g r6) (fun b r7 =>
+                  POk (SFor init (match c with Some c => c | None => ELit (LitBool true) 0%N end) inc b) r7 [])))))
+             f [] (mk TSEMICOLON :: mk TRIGHT_PAREN :: wS)).
+    + apply VF_optexpr. reflexivity.
+    + constructor; [reflexivity|]. constructor; [reflexivity|apply FN_pstmt].
+    + intros c.
+      apply (VF_tok true C_ne TSEMICOLON PSemiAfterLoopCond
+               (fun g _s r4 =>
+                  pbind (optexpr TRIGHT_PAREN g r4) (fun inc r5 =>
+                  pbind (consume TRIGHT_PAREN PRParenAfterFor r5) (fun _rp r6 =>
+                  pbind (pstmt g r6) (fun b r7 =>
+                    POk (SFor init (match c with Some c => c | None => ELit (LitBool true) 0%N end) inc b) r7 []))))
+               f (mk TRIGHT_PAREN :: wS)).
+      intros _s.
+      apply (VF_bind false true (C_head TRIGHT_PAREN) C_ne (optexpr TRIGHT_PAREN)
+               (fun g inc r5 =>
+                  pbind (consume TRIGHT_PAREN PRParenAfterFor r5) (fun _rp r6 =>
+                  pbind (pstmt g r6) (fun b r7 =>
+                    POk (SFor init (match c with Some c => c | None => ELit (LitBool true) 0%N end) inc b) r7 [])))
+               f [] (mk TRIGHT_PAREN :: wS)).
+      * apply VF_optexpr. reflexivity.
+      * constructor; [reflexivity|apply FN_pstmt].
+      * intros inc.
+        apply (VF_tok true C_ne TRIGHT_PAREN PRParenAfterFor
+                 (fun g _rp r6 => pbind (pstmt g r6) (fun b r7 =>
+                    POk (SFor init (match c with Some c => c | None => ELit (LitBool true) 0%N end) inc b) r7 []))
+                 f wS).
+        intros _rp.
+        apply (VF_map true C_ne (fun g => pstmt g)
+                 (fun b => SFor init (match c with Some c => c | None => ELit (LitBool true) 0%N end) inc b) f wS), HS.
+      * left. reflexivity.
+      * intros u _. reflexivity.
+    + left. reflexivity.
+    + intros u _. reflexivity.
+  - left. reflexivity.
+  - intros u _. exact I.
+Qed.
+
+Lemma VF_funK nm : VF true C_ne (fun g => funK g nm) f (mk TLEFT_PAREN :: mk TRIGHT_PAREN :: mk TLEFT_BRACE :: wB).
+Proof.
+  eapply VF_sub; [apply C_ne_any|]. unfold funK.
+  apply (VF_tok true C_any TLEFT_PAREN PLParenAfterFunName
+           (fun g _lp r2 =>
+              pbind (optparams g r2) (fun ps r3 =>
+              pbind (consume TRIGHT_PAREN PRParenAfterParams r3) (fun _rp r4 =>
+              pbind (consume TLEFT_BRACE PLBraceBeforeBody r4) (fun _lb r5 =>
+              pbind (pblock g r5) (fun body r6 => POk (SFun (tlex nm) ps body) r6 [])))))
+           f (mk TRIGHT_PAREN :: mk TLEFT_BRACE :: wB)).
+  intros _lp.
+  apply (VF_bind false true (C_head TRIGHT_PAREN) C_any optparams
+           (fun g ps r3 =>
+              pbind (consume TRIGHT_PAREN PRParenAfterParams r3) (fun _rp r4 =>
+              pbind (consume TLEFT_BRACE PLBraceBeforeBody r4) (fun _lb r5 =>
+              pbind (pblock g r5) (fun body r6 => POk (SFun (tlex nm) ps body) r6 []))))
+           f [] (mk TRIGHT_PAREN :: mk TLEFT_BRACE :: wB)).
+  - apply VF_optparams.
+  - constructor; [reflexivity|]. constructor; [reflexivity|apply FN_pblock].
+  - intros ps.
+    apply (VF_tok true C_any TRIGHT_PAREN PRParenAfterParams
+             (fun g _rp r4 =>
+                pbind (consume TLEFT_BRACE PLBraceBeforeBody r4) (fun _lb r5 =>
+                pbind (pblock g r5) (fun body r6 => POk (SFun (tlex nm) ps body) r6 [])))
+             f (mk TLEFT_BRACE :: wB)).
+    intros _rp.
+    apply (VF_tok true C_any TLEFT_BRACE PLBraceBeforeBody
+             (fun g _lb r5 => pbind (pblock g r5) (fun body r6 => POk (SFun (tlex nm) ps body) r6 [])) f wB).
+    intros _lb. apply (VF_map true C_any (fun g => pblock g) (fun body => SFun (tlex nm) ps body) f wB), HB.
+  - left. reflexivity.
+  - intros u _. reflexivity.
+Qed.
+
+Lemma VF_fundeclK : VF true C_ne fundeclK f (idtok :: mk TLEFT_PAREN :: mk TRIGHT_PAREN :: mk TLEFT_BRACE :: wB).
+Proof. unfold fundeclK. apply (VF_reserved true C_ne PExpectFunName PReservedFun funK f _), VF_funK. Qed.
+
+End Step.
+
+(** * The statement-level induction *)
+
+Definition ViaSt (f : nat) : Prop :=
+  (forall ts, ViaL true C_ne (fun g => pdecl g) f ts) /\
+  (forall ts, ViaL true C_ne (fun g => pstmt g) f ts) /\
+  (forall ts, ViaL true C_any (fun g => pblock g) f ts).
+
+Lemma viaSt_pstmt f : ViaSt f -> forall ts, ViaL true C_ne (fun g => pstmt g) (S f) ts.
+Proof.
+  intros (_ & Is & Ib) ts.
+  assert (HS : VF true C_ne (fun g => pstmt g) f wS) by (split; [exact Is|apply FN_pstmt]).
+  assert (HB : VF true C_any (fun g => pblock g) f wB) by (split; [exact Ib|apply FN_pblock]).
+  apply ViaL_shift.
+  assert (Dflt : forall ts0, ViaL true C_ne (fun g => pexprstmt g) f ts0).
+  { intros ts0. eapply ViaL_sub; [apply C_ne_any|apply ViaL_of, via_pexprstmt]. }
+  destruct ts as [|t r].
+  { apply (ViaL_ext_head eofl true _ _ (fun g => pexprstmt g)); [|apply Dflt].
+    intros g y _ S. same_head S. rewrite pstmt_S. reflexivity. }
+  assert (KW : forall ne (K : nat -> list token -> pres stmt) w, VF ne C_ne K f w ->
+                 (forall g x, pstmt (S g) (t :: x) = K g x) -> ViaL true C_ne (fun g => pstmt (S g)) f (t :: r)).
+  { intros ne K w (V & F) E. eapply (ViaL_cons eofl true ne C_ne _ K f t r w); [exact E|exact F|apply V]. }
+  destruct (tk t) eqn:Etk;
+    try (apply (ViaL_ext_head eofl true _ _ (fun g => pexprstmt g)); [|apply Dflt];
+         intros g y _ S; same_head S; rewrite pstmt_kw, Etk; reflexivity).
+  - apply (KW _ blockK _ (VF_blockK f HB)). intros g x. rewrite pstmt_kw, Etk. reflexivity.
+  - apply (KW _ _ _ (VF_semiK f PSemiAfterBreak (fun s => SBreak (tline s)))). intros g x. rewrite pstmt_kw, Etk. reflexivity.
+  - apply (KW _ _ _ (VF_semiK f PSemiAfterContinue (fun s => SContinue (tline s)))). intros g x. rewrite pstmt_kw, Etk. reflexivity.
+  - apply (KW _ forK _ (VF_forK f HS)). intros g x. rewrite pstmt_kw, Etk. reflexivity.
+  - apply (KW _ ifK _ (VF_ifK f HS)). intros g x. rewrite pstmt_kw, Etk. reflexivity.
+  - apply (KW _ (exprlen SPrint) _ (VF_sub true C_any C_ne _ f _ C_ne_any (VF_exprlen SPrint f))).
+    intros g x. rewrite pstmt_kw, Etk. reflexivity.
+  - apply (KW _ (returnK t) _ (VF_returnK f t)). intros g x. rewrite pstmt_kw, Etk. reflexivity.
+  - apply (KW _ whileK _ (VF_whileK f HS)). intros g x. rewrite pstmt_kw, Etk. reflexivity.
+Qed.
+
+Lemma viaSt_pdecl f : ViaSt f -> forall ts, ViaL true C_ne (fun g => pdecl g) (S f) ts.
+Proof.
+  intros (_ & Is & Ib) ts.
+  assert (HB : VF true C_any (fun g => pblock g) f wB) by (split; [exact Ib|apply FN_pblock]).
+  apply ViaL_shift.
+  destruct ts as [|t r].
+  { apply (ViaL_ext_head eofl true _ _ (fun g => pstmt g)); [|apply Is].
+    intros g y _ S. same_head S. rewrite pdecl_S. reflexivity. }
+  destruct (tk t) eqn:Etk;
+    try (apply (ViaL_ext_head eofl true _ _ (fun g => pstmt g)); [|apply Is];
+         intros g y _ S; same_head S; rewrite pdecl_kw, Etk; reflexivity).
+  - destruct (VF_fundeclK f HB) as (V & F).
+    eapply (ViaL_cons eofl true true C_ne _ fundeclK f t r _); [|exact F|apply V].
+    intros g x. rewrite pdecl_kw, Etk. reflexivity.
+  - destruct (VF_sub true C_any C_ne _ f _ C_ne_any (VF_pvar f)) as (V & F).
+    eapply (ViaL_cons eofl true true C_ne _ (fun g => pvar g) f t r _); [|exact F|apply V].
+    intros g x. rewrite pdecl_kw, Etk. reflexivity.
+Qed.
+
+Definition blockF (g : nat) (x : list token) : pres (list stmt) :=
+  pbind (pdecl g x) (fun s r1 => pbind (pblock g r1) (fun ss r2 => POk (s :: ss) r2 [])).
+
+Lemma viaSt_pblock f : ViaSt f -> forall ts, ViaL true C_any (fun g => pblock g) (S f) ts.
+Proof.
+  intros (Id & _ & Ib) ts.
+  assert (HB : VF true C_any (fun g => pblock g) f wB) by (split; [exact Ib|apply FN_pblock]).
+  assert (HD : VF true C_ne (fun g => pdecl g) f wS) by (split; [exact Id|apply FN_pdecl]).
+  apply ViaL_shift.
+  destruct ts as [|t r].
+  { intros _. apply (Via_len_now eofl true _ _ _ _ _ [] PRBraceAfterBlock). intros g y S. same_head S. reflexivity. }
+  destruct (tkind_eqb (tk t) TRIGHT_BRACE) eqn:E.
+  { intros _. eapply (Via_cons eofl true false C_any _ (fun _ x => POk [] x []) f t r []).
+    - intros g x. rewrite pblock_S. cbv beta iota. rewrite E. reflexivity.
+    - apply FN_ret.
+    - apply Via_ret. reflexivity. }
+  apply (ViaL_ext_head eofl true _ _ blockF).
+  { intros g y _ S. same_head S. rewrite pblock_S. cbv beta iota. rewrite E. reflexivity. }
+  destruct (VF_bind true true C_ne C_any (fun g => pdecl g)
+              (fun g s r1 => pbind (pblock g r1) (fun ss r2 => POk (s :: ss) r2 [])) f wS wB HD) as (V & _).
+  - apply online1. reflexivity.
+  - intros s. apply (VF_map true C_any (fun g => pblock g) (fun ss => s :: ss) f wB), HB.
+  - left. reflexivity.
+  - intros u _. reflexivity.
+  - apply V.
+Qed.
+
+Theorem viaSt : forall f, ViaSt f.
+Proof.
+  induction f as [|f IH].
+  { split; [|split]; intros ts _; apply Via_fuel; reflexivity. }
+  split; [|split].
+  - apply viaSt_pdecl, IH.
+  - apply viaSt_pstmt, IH.
+  - apply viaSt_pblock, IH.
+Qed.
+
+(** * Programs *)
+
+Definition C_end (u : list token) : Prop := u = [].
+
+Definition progF (g : nat) (x : list token) : pres (list stmt) :=
+  pbind (pdecl g x) (fun s r1 => pbind (pprogram g r1) (fun ss r2 => POk (s :: ss) r2 [])).
+
+Lemma via_pprogram : forall f ts, ViaL false C_end (fun g => pprogram g) f ts.
+Proof.
+  induction f as [|f IH]; intros ts; [intros _; apply Via_fuel; reflexivity|].
+  apply ViaL_shift. destruct ts as [|t r].
+  { intros _. apply (Via_stop_ok eofl true _ _ []). intros g y [S|Cy]; [same_head S|rewrite Cy]; reflexivity. }
+  apply ViaL_weaken. apply (ViaL_ext_head eofl true _ _ progF).
+  { intros g y _ S. same_head S. rewrite pprogram_S. reflexivity. }
+  apply (ViaL_bind eofl true true false C_ne C_end (fun g => pdecl g)
+           (fun g s r1 => pbind (pprogram g r1) (fun ss r2 => POk (s :: ss) r2 [])) f (t :: r) []).
+  - apply (viaSt f).
+  - intros s r1. apply (ViaL_map eofl true false C_end (fun g => pprogram g) (fun ss => s :: ss)), IH.
+  - right. intros u ->. reflexivity.
+  - split; [constructor|]. intros u ->. split; [reflexivity|].
+    intros s. exists 1, [s]. intros g Hg. destruct g as [|g]; [lia|]. reflexivity.
+Qed.
+
+(** * The theorems *)
+
+(** [pre] can be completed (by tokens on the end-of-input line) to an accepted program *)
+Definition prog_viable (pre : list token) : Prop := exists w, online w /\ accepted eofl (pre ++ w).
+
+Lemma NC_rejects f pre rem : NC (fun g => pprogram g) f pre rem ->
+  forall rem', samehead rem rem' -> rejects eofl (pre ++ rem').
+Proof.
+  intros N rem' S. set (g := max f (parse_fuel (pre ++ rem'))).
+  assert (NF : pprogram g (pre ++ rem') <> PFuel) by (apply pprogram_big; apply Nat.le_max_r).
+  specialize (N g rem' (Nat.le_max_l _ _) S). cbv beta in N. exists g.
+  destruct (pprogram g (pre ++ rem')) as [ss r [|d ds]| ds|].
+  - contradiction.
+  - right. exists ss, r, (d :: ds). split; [reflexivity|discriminate].
+  - left. eauto.
+  - exfalso. apply NF. reflexivity.
+Qed.
+
+Lemma Viab_prog pre : Viab eofl C_end (fun g => pprogram g) pre -> prog_viable pre.
+Proof.
+  intros (w & Ow & Hc). exists w. split; [exact Ow|]. destruct (Hc [] eq_refl) as (g0 & ss & R).
+  exists g0, ss. specialize (R g0 (le_n _)). rewrite app_nil_r in R. exact R.
+Qed.
+
+Lemma prog_viable_nil : prog_viable [].
+Proof. exists []. split; [constructor|]. exists 1, []. reflexivity. Qed.
+
+(** ** The first diagnostic is not early.
+
+    For a token list on one line: the first diagnostic [d] of the parser (fatal
+    or lenient) was issued after consuming [pre], looking at the head of [rem];
+    nothing that starts with [pre] and the first token of [rem] is accepted; and
+    either [pre] is a viable prefix -- some completion [w] (on the same line)
+    makes [pre ++ w] an accepted program -- or the diagnostic is late: [pre]
+    contains a token [t0] such that the text before [t0] is viable and the text
+    including [t0] is hopeless, where [t0] is an [=] after a complete,
+    non-assignable left side, or the comma after the 255th parameter. *)
+Theorem viable_before_error f ts d :
+  online ts -> first_diag (pprogram f ts) = Some d ->
+  exists pre rem, ts = pre ++ rem /\ d = diag_at rem (pd_kind d) /\
+    (forall rem', samehead rem rem' -> rejects eofl (pre ++ rem')) /\
+    (prog_viable pre \/
+     exists a' t0 b, pre = a' ++ t0 :: b /\ ((tk t0 = TEQUAL /\ LhsBad a') \/ tk t0 = TCOMMA) /\
+                     prog_viable a' /\ forall y, rejects eofl (a' ++ t0 :: y)).
+Proof.
+  intros O F. pose proof (via_pprogram f ts O) as V. unfold ParserViableDefs.Via in V.
+  assert (FD : FDv eofl true C_end (fun g => pprogram g) f ts d).
+  { destruct (pprogram f ts) as [ss r [|d' ds]| [|d' ds]|]; simpl in F; try discriminate F;
+      try contradiction; inversion F; subst d'; exact V. }
+  destruct FD as (pre & rem & Ets & Ed & N & H). exists pre, rem.
+  split; [exact Ets|]. split; [exact Ed|]. split; [apply (NC_rejects f), N|].
+  destruct pre as [|t1 pre1]; [left; apply prog_viable_nil|].
+  destruct (H ltac:(discriminate)) as [(a' & t0 & b & Ep & K & Na & Va)|Vp]; [right|left; apply Viab_prog, Vp].
+  exists a', t0, b. split; [exact Ep|]. split.
+  { destruct K as [K|(_ & K)]; [left; exact K|right; exact K]. }
+  split.
+  { destruct a' as [|t2 a2]; [apply prog_viable_nil|apply Viab_prog, Va; discriminate]. }
+  intros y. apply (NC_rejects f a' [t0] Na). reflexivity.
+Qed.
+
+(** ** The first diagnostic names the first bad token.
+
+    If the first diagnostic names a token [t] of the (one-line) text, after the
+    prefix [pre], then no text that starts with [pre ++ [t]] is accepted; and
+    [pre] is the beginning of an accepted text, unless the diagnostic is one of
+    the two late ones (then the first bad token is the [t0] described above, to
+    the left of [t]). *)
+Corollary first_diag_is_first_bad_token f ts d :
+  online ts -> first_diag (pprogram f ts) = Some d -> pd_where d <> None ->
+  exists pre t w0, ts = pre ++ t :: w0 /\ d = diag_tok t (pd_kind d) /\
+    (forall w', ~ accepted eofl (pre ++ t :: w')) /\
+    (prog_viable pre \/
+     exists a' t0 b, pre = a' ++ t0 :: b /\ ((tk t0 = TEQUAL /\ LhsBad a') \/ tk t0 = TCOMMA) /\
+                     prog_viable a' /\ forall y, ~ accepted eofl (a' ++ t0 :: y)).
+Proof.
+  intros O F W. destruct (viable_before_error f ts d O F) as (pre & rem & Ets & Ed & N & H).
+  destruct rem as [|t w0]; [exfalso; apply W; rewrite Ed; reflexivity|].
+  exists pre, t, w0. split; [exact Ets|]. split; [exact Ed|]. split.
+  { intros w'. apply rejects_not_accepted. apply N. reflexivity. }
+  destruct H as [Vp|(a' & t0 & b & Ep & K & Va & Ra)]; [left; exact Vp|right].
+  exists a', t0, b. split; [exact Ep|]. split; [exact K|]. split; [exact Va|].
+  intros y. apply rejects_not_accepted, Ra.
+Qed.
+
+(** in particular: when the text before [t] contains neither an [=] nor a comma,
+    it is the beginning of an accepted program *)
+Corollary first_bad_token_plain f ts d :
+  online ts -> first_diag (pprogram f ts) = Some d -> pd_where d <> None ->
+  exists pre t w0, ts = pre ++ t :: w0 /\ d = diag_tok t (pd_kind d) /\
+    (forall w', ~ accepted eofl (pre ++ t :: w')) /\
+    (Forall (fun x => tk x <> TEQUAL /\ tk x <> TCOMMA) pre -> prog_viable pre).
+Proof.
+  intros O F W. destruct (first_diag_is_first_bad_token f ts d O F W) as (pre & t & w0 & Ets & Ed & N & H).
+  exists pre, t, w0. split; [exact Ets|]. split; [exact Ed|]. split; [exact N|].
+  intros Hp. destruct H as [Vp|(a' & t0 & b & Ep & K & _)]; [exact Vp|].
+  subst pre. apply Forall_app in Hp. destruct Hp as (_ & Hp). inversion Hp as [|x l (H1 & H2) Hl]; subst.
+  destruct K as [(K & _)|K]; contradiction.
+Qed.
+
+(** a diagnostic "at end": the whole text is the consumed prefix *)
+Corollary first_diag_at_end_viable f ts d :
+  online ts -> first_diag (pprogram f ts) = Some d -> pd_where d = None ->
+  prog_viable ts \/
+  exists a' t0 b, ts = a' ++ t0 :: b /\ ((tk t0 = TEQUAL /\ LhsBad a') \/ tk t0 = TCOMMA) /\
+                  prog_viable a' /\ forall y, ~ accepted eofl (a' ++ t0 :: y).
+Proof.
+  intros O F W. destruct (viable_before_error f ts d O F) as (pre & rem & Ets & Ed & N & H).
+  destruct rem as [|t w0]; [|rewrite Ed in W; discriminate W].
+  rewrite app_nil_r in Ets. subst pre.
+  destruct H as [Vp|(a' & t0 & b & Ep & K & Va & Ra)]; [left; exact Vp|right].
+  exists a', t0, b. split; [exact Ep|]. split; [exact K|]. split; [exact Va|].
+  intros y. apply rejects_not_accepted, Ra.
+Qed.
+
 End ViableStmt.
+
+(** * Examples (everything on line 1) *)
+
+Definition sx_tok (k : tkind) (lex : list N) : token := mkTok k lex LNone 1%N.
+Definition sx_id := sx_tok TIDENTIFIER [102%N].
+Definition sx_if := sx_tok TIF [2479; 2470; 2495]%N.
+Definition sx_var := sx_tok TVAR [2471; 2480; 2495]%N.
+Definition sx_fun := sx_tok TFUN [2475; 2494; 2434; 2486; 2472]%N.
+Definition sx_lp := sx_tok TLEFT_PAREN [40%N].
+Definition sx_rp := sx_tok TRIGHT_PAREN [41%N].
+Definition sx_lbr := sx_tok TLEFT_BRACE [123%N].
+Definition sx_plus := sx_tok TPLUS [43%N].
+Definition sx_semi := sx_tok TSEMICOLON [59%N].
+Definition sx_eq := sx_tok TEQUAL [61%N].
+Definition sx_comma := sx_tok TCOMMA [44%N].
+
+(** [যদি ( f + ;]: fatal at the [;]; the prefix [যদি ( f +] is completed by [x ) { }] *)
+Example sx_fails : pprogram 1%N 200 ([sx_if; sx_lp; sx_id; sx_plus] ++ [sx_semi]) = PErr [diag_tok sx_semi PExpectExpr].
+Proof. vm_compute. reflexivity. Qed.
+Example sx_completed :
+  exists ss, pprogram 1%N 200 ([sx_if; sx_lp; sx_id; sx_plus] ++
+               [idtok 1%N; mk 1%N TRIGHT_PAREN; mk 1%N TLEFT_BRACE; mk 1%N TRIGHT_BRACE]) = POk ss [] [].
+Proof. eexists. vm_compute. reflexivity. Qed.
+
+(** a lenient first diagnostic: [{ f f]: the second [f] draws "expected ;"; the
+    prefix [{ f] is completed by [; }] *)
+Example sx_lenient : first_diag (pprogram 1%N 200 ([sx_lbr; sx_id] ++ [sx_id])) = Some (diag_tok sx_id PSemiAfterValue).
+Proof. vm_compute. reflexivity. Qed.
+Example sx_lenient_completed :
+  exists ss, pprogram 1%N 200 ([sx_lbr; sx_id] ++ [mk 1%N TSEMICOLON; mk 1%N TRIGHT_BRACE]) = POk ss [] [].
+Proof. eexists. vm_compute. reflexivity. Qed.
+
+(** [ধরি f = ( f ) = + ...]: the diagnostic is at the [+], but the text stopped being
+    viable at the second [=] *)
+Example sx_late : pprogram 1%N 200 ([sx_var; sx_id; sx_eq; sx_lp; sx_id; sx_rp; sx_eq] ++ [sx_plus])
+                  = PErr [diag_tok sx_plus PExpectExpr].
+Proof. vm_compute. reflexivity. Qed.
+Example sx_late_viable :
+  exists ss, pprogram 1%N 200 ([sx_var; sx_id; sx_eq; sx_lp; sx_id; sx_rp] ++ [mk 1%N TSEMICOLON]) = POk ss [] [].
+Proof. eexists. vm_compute. reflexivity. Qed.
+
+(** the 256th parameter is diagnosed at the parameter, one token after the comma
+    that made the text hopeless *)
+Definition sx_params (n : nat) : list token := concat (repeat [sx_id; sx_comma] n).
+Example sx_too_many :
+  pprogram 1%N (40 * 520) ([sx_fun; sx_id; sx_lp] ++ sx_params 255 ++ [sx_id; sx_rp])
+  = PErr [diag_tok sx_id PTooManyParams].
+Proof. vm_compute. reflexivity. Qed.
+
+Check viable_before_error.
+Check first_diag_is_first_bad_token.
+Check first_bad_token_plain.
+Check first_diag_at_end_viable.
+Print Assumptions viaSt.
+Print Assumptions viable_before_error.
+Print Assumptions first_diag_is_first_bad_token.
